@@ -10,7 +10,7 @@ from .core import Check, MachineryError, parallel_map, require_tlc_ok, run_tlc, 
 from .tla import tla, tla_set
 
 # Defects of the pinned tree that are repaired in /repo by "fix:" commits; the model describes the repaired code.
-FIXED = set(filter(None, os.environ.get("VERIF_FIXED", "F3,F8,F10,F13").split(",")))
+FIXED = set(filter(None, os.environ.get("VERIF_FIXED", "F3,F8,F10,F13,F23").split(",")))
 
 HMIN, HMAX = 60000, 120000
 ROOTS = [77000, 115000]   # a low and a high bracketed root (high: within 5% of the maximum height)
@@ -48,7 +48,12 @@ def rect_like(n):
 
 LISTS_A = [[1, 2, 4], [1, 3, 6]]
 LISTS_B = [[1, 2, 3, 6], [1, 2, 4, 8], [1, 3, 6, 12]]
-LISTS_C = [[1, 2], [1, 2, 3], [2, 4, 6, 9]]
+# every list that bi_rectangle_nested produces starts with the single-borehole field (Domains.tla: BiRectListsStartWithSingle); Bisection2D relies on
+# it: an outer selection key 0 wraps to the LAST list (nested[-1]) and is only harmless because that list starts with the same field
+LISTS_C = [[1, 2], [1, 2, 3], [1, 4, 6, 9]]
+# a spacing window that admits no whole number of rows: empty candidate domain (F23)
+EMPTY_1D = [[]]
+EMPTY_NESTED = ([], [[]])
 # bi-zoned domains are ONE list whose borehole count is a saw-tooth (line, L, U, C, then zoned rectangles per (n1, n2) pair)
 LISTS_Z = [[1, 2, 3, 5, 4, 6, 9, 7, 8, 12]]
 LISTS_Z2 = [[1, 2, 4, 3, 5], [2, 5, 4, 7, 6, 9]]
@@ -67,6 +72,7 @@ def model_runs(mode: str, t: str):
             for ct in (False, True)
         ]
         cfgs += [{"lists": [rect_like(n)], "cap": c, "cont": True, "flow": "SYSTEM"} for n in (5, 8) for c in (0, 3, 4, 10)]
+        cfgs += [{"lists": EMPTY_1D, "cap": c, "cont": ct, "flow": "BOREHOLE"} for c in (0, 3) for ct in (False, True)]
         runs.append(("1D-small-4val", cfgs, [-2, -1, 1, 2], 15, {}))
         big = (16, 33, 64) if t == "quick" else tuple(range(11, 65))
         cfgs = [
@@ -82,12 +88,14 @@ def model_runs(mode: str, t: str):
             runs.append(("1D-6val", cfgs, [-3, -2, -1, 1, 2, 3], 15, {}))
     elif mode == "2D":
         cfgs = [{"lists": L, "cap": c, "cont": ct, "flow": "BOREHOLE"} for L in (LISTS_A, LISTS_B) for c in (0, 5) for ct in (False, True)]
+        cfgs += [{"lists": L, "cap": 0, "cont": ct, "flow": "BOREHOLE"} for L in EMPTY_NESTED for ct in (False, True)]
         runs.append(("2D-4val", cfgs, [-2, -1, 1, 2], 15, {}))
         if t == "thorough":
             cfgs = [{"lists": L, "cap": c, "cont": ct, "flow": "SYSTEM"} for L in (LISTS_C,) for c in (0, 3, 7) for ct in (False, True)]
             runs.append(("2D-C-4val", cfgs, [-2, -1, 1, 2], 15, {}))
     elif mode == "ZD":
         cfgs = [{"lists": LISTS_A, "cap": c, "cont": ct, "flow": "BOREHOLE"} for c in (0, 5) for ct in (False, True)]
+        cfgs += [{"lists": L, "cap": 0, "cont": ct, "flow": "BOREHOLE"} for L in EMPTY_NESTED for ct in (False, True)]
         runs.append(("ZD-A-4val", cfgs, [-2, -1, 1, 2], 15, {}))
         cfgs = [{"lists": LISTS_B, "cap": c, "cont": ct, "flow": "SYSTEM"} for c in (0, 7) for ct in (False, True)]
         runs.append(("ZD-B-2val", cfgs, [-1, 1], 15, {}))
@@ -219,6 +227,7 @@ def gen_runs(t: str):
     flows = ("BOREHOLE", "SYSTEM")
     n1 = 7 if t == "quick" else 9
     cfgs = [{"lists": [nearsq(n)], "cap": c, "cont": ct, "flow": fl} for n in range(1, n1 + 1) for c in (0, 2, 5, 7) for ct in (False, True) for fl in flows]
+    cfgs += [{"lists": EMPTY_1D, "cap": c, "cont": ct, "flow": "BOREHOLE"} for c in (0, 3) for ct in (False, True)]
     runs.append(("1D", "g1D-small", cfgs, [-2, -1, 1, 2], 15, {}))
     cfgs = [{"lists": [nearsq(n)], "cap": c, "cont": ct, "flow": "BOREHOLE"} for n in (16, 64) for c in (0, nearsq(n)[n // 2]) for ct in (False, True)]
     runs.append(("1D", "g1D-big", cfgs, [-1, 1], 15, {}))
@@ -227,8 +236,10 @@ def gen_runs(t: str):
     cfgs = [{"lists": [nearsq(n)], "cap": 0, "cont": ct, "flow": "BOREHOLE"} for n in (1, 2, 4) for ct in (False, True)]
     runs.append(("1D", "g1D-zero", cfgs, [-1, 0, 1], 15, {"minvals": (-1, 0, 1)}))
     cfgs = [{"lists": L, "cap": c, "cont": ct, "flow": "BOREHOLE"} for L in ((LISTS_A,) if t == "quick" else (LISTS_A, LISTS_B)) for c in (0, 5) for ct in (False, True)]
+    cfgs += [{"lists": L, "cap": 0, "cont": ct, "flow": "BOREHOLE"} for L in EMPTY_NESTED for ct in (False, True)]
     runs.append(("2D", "g2D", cfgs, [-2, -1, 1, 2], 15, {}))
     cfgs = [{"lists": LISTS_A, "cap": c, "cont": ct, "flow": "SYSTEM"} for c in (0, 5) for ct in (False, True)]
+    cfgs += [{"lists": L, "cap": 0, "cont": ct, "flow": "SYSTEM"} for L in EMPTY_NESTED for ct in (False, True)]
     runs.append(("ZD", "gZD-A", cfgs, [-2, -1, 1, 2] if t == "thorough" else [-2, -1, 1], 15, {}))
     cfgs = [{"lists": LISTS_B, "cap": 0, "cont": ct, "flow": "BOREHOLE"} for ct in (False, True)]
     runs.append(("ZD", "gZD-B", cfgs, [-1, 1], 15, {}))
@@ -456,6 +467,10 @@ def run(pid: str) -> int:
     for f in found:
         chk.violation(f"Search.tla invariant {f['invariant']} violated in run {f['run']}", f)
     crosscheck_mirrors(chk)
+    if pid == "C05":
+        from . import p_proof  # noqa: PLC0415
+
+        p_proof.run_for(chk)      # unbounded list length: TLAPS proof of the bisection loop + TLC refinement Search.tla => BisectProof.tla
     total, drift, viol = generate_and_replay(chk, invs)
     for v in viol[:10]:
         chk.violation(f"{pid}: real code violates {v['false_invariants'] or v['mismatch'][:1]} on TLC behaviour (mode {v['mode']}, cfg {v['cfg']})", v)
